@@ -36,8 +36,9 @@ MANIFEST = {
             "also exercised as the engines obtain them (str_to_class / build_operators on every operator string of the shipped "
             "YAMLs and DefaultConfig, dim literals of the model classes, tuple and list) and on strided / permuted / offset / "
             "expanded views (same result, input untouched, no aliasing). Float32 rounding is outside the theorems (tolerances "
-            "1e-5/1e-4). The n-D DFT formula is the per-axis composition of the proved 1-D formula; it is not restated as a "
-            "single n-D sum.",
+            "1e-5/1e-4). The multi-index sum is proved for an axis pair (fft2_two_axes_sum: entry (k,l) = sum_x sum_y W_a(k,x) "
+            "W_b(l,y) t(x,y), W the centred DFT matrix); for three axes it is the per-axis composition (alongAxis_comm_linear), "
+            "not restated as a triple sum.",
     "technique": "Lean 4 proof (list/index arithmetic, plan interpretation, alongAxis lifting, Mathlib ZMod.dft) + AST translation "
                  "bridge + differential correspondence + property oracle",
 }
